@@ -32,7 +32,14 @@ Classes of inputs added after the audit of the seeded-change rounds (each one a 
   also a *tagged* request and an interpolation on the same object against the Lean model of the series as stored then;
 * references — stand-alone resampling on decimal grids is observed through an identity signal (x = t: the values are the new times)
   and compared with numpy.interp; get(resample=step) on decimal grids is explored too (never raises, ends on the stored ends);
-* crashes — every case is wrapped: an exception of the implementation is a failing clause.
+* crashes — every case is wrapped: an exception of the implementation is a failing clause;
+* the stage functions as they are (stream `real-stages`) — the tag functions make order and sampling interval visible but hide what
+  the real taper / filters / smoothing return, so every stage combination is also requested unpatched, with the stages' own parameter
+  ranges (taper fraction 0 .. 1, five filter kinds at 5 - 90 % of the Nyquist frequency, smoothing windows of every length from 0 to
+  the number of retained samples — even and odd — and all five window functions), on float series of 3 - 256 samples (uniform /
+  non-uniform), several requests per object, directly and through positional / TsDB.geta / getda / to_dataframe / modify: time and
+  data have equal length, the stages leave the time array alone, the stages asked together give what the later stages give on a
+  series holding the result of the earlier ones (order), the entry points agree, the stored arrays are untouched.
 """
 from datetime import datetime, timedelta
 from fractions import Fraction
@@ -40,8 +47,16 @@ from fractions import Fraction
 import numpy as np
 
 from .. import core
+from . import c11_smooth
 from ..core import rat
 
+USES_TRANSLATOR = True          # the cosine flanks of the Tukey window (tk_rise, tk_fall) are regenerated from qats/signal.py
+ANCHOR_PREFIX = ("tk_",)
+
+SMOOTH_RULE = ("Smoothing / tapering stages (Lean model Qats.Smooth, Float): signal.smooth for window lengths 1..12 (odd and even) "
+               "against signal lengths below / equal / just above / well above the window, five window functions; signal.taper for "
+               "Tukey fractions 0.001..0.999; histories of 1-4 get(window_len=…) / get(taperfrac=…) requests on one object. A case is "
+               "non-trivial when the stage really computes (window of 3 samples or more on a longer signal; any taper).")
 RULE = ("seeded dyadic series (3-40 samples; uniform with power-of-two steps, or non-uniform dyadic steps) x windows (inside / "
         "partially outside / exactly on samples / empty) x resample step / array (inside and outside the span) x all 8 stage "
         "combinations; requested arrays sorted / shuffled / with repeats, out-of-span values at any position (first, interior, last; "
@@ -62,7 +77,11 @@ RULE = ("seeded dyadic series (3-40 samples; uniform with power-of-two steps, or
         "operations (14 kinds), the same key argument under another setting, modify(resample=...), in-place edits of the first / last "
         "time and re-scaling of the time axis, two series queried alternately; after each history a tagged request and an "
         "interpolation on the same object against the model; decimal grids far from zero for resample() and get(resample=step), "
-        "new times observed through an identity signal")
+        "new times observed through an identity signal; stream real-stages: float series of 3-256 samples x 1-3 requests per object "
+        "with the unpatched stage functions (taper fraction 0..1, lp / hp / bp / bs / tp, smoothing window lengths 0..number of "
+        "retained samples both even and odd, five window functions, after window / step / array resampling, via get / positional / "
+        "geta / getda / to_dataframe / modify): equal length of time and data, time array untouched by the stages, "
+        "stages together = later stages on a series holding the earlier ones' result")
 
 
 class Tags:
@@ -1332,12 +1351,226 @@ def float_case(inp):
     return bad
 
 
+# ---- the unpatched stage functions: every stage combination with the stages' own parameters -------------------------------------------
+REAL_WINDOWS = ("rectangular", "hanning", "hamming", "bartlett", "blackman")
+REAL_VIAS = ("get", "get", "get", "positional", "geta", "getda", "to_dataframe", "modify")
+REAL_STAGES = ("taper", "filter", "smooth")
+MIN_FILTER_LEN = 40         # scipy's forward-backward filtering pads the signal: shorter signals may be refused
+EQUAL_LEN = "time and data always have equal length, for every combination of stages (unpatched stage functions)"
+
+
+def gen_real(rng):
+    """a float series (uniform on a dyadic / decimal step, or non-uniform; 3 - 256 samples) and 1 - 3 requests to the same object,
+    each a combination of window / resampling (step or array) / taper / filter / smoothing with the stages' own parameter ranges:
+    taper fractions 0 .. 1, the five filter kinds with cut-offs at 5 % .. 90 % of the Nyquist frequency of the grid that is filtered,
+    smoothing windows of every length from 0 up to the number of retained samples (even and odd) and every window function"""
+    n = rng.choice([3, 4, 5, 6, 8, 13, 21, 40, 64, 100, 161, 256])
+    dt0 = rng.choice([0.5, 1.0, 0.25, 0.125, 0.1, 0.05, 2.0])
+    start = rng.choice([0.0, 0.0, -3.0, 10.0, 100.5])
+    uniform = rng.random() < 0.75
+    if uniform:
+        t = [start + dt0 * i for i in range(n)]
+    else:
+        t = [start]
+        for _ in range(n - 1):
+            t.append(t[-1] + dt0 * rng.choice([0.5, 1.0, 1.0, 1.5, 2.0]))
+    mean = rng.choice([0.0, 2.0, -50.0, 1000.0])
+    amp = rng.choice([1.0, 0.01, 30.0])
+    per = rng.choice([5.0, 12.0, 40.0]) * dt0
+    x = [mean + amp * (float(np.sin(2 * np.pi * u / per)) + 0.2 * rng.gauss(0.0, 1.0)) for u in t]
+    if rng.random() < 0.08:
+        x = [mean] * n
+    reqs = [gen_real_request(rng, t, uniform) for _ in range(rng.choice([1, 1, 2, 3]))]
+    return {"real": 1, "t": t, "x": x, "requests": reqs}
+
+
+def gen_real_request(rng, t, uniform):
+    n = len(t)
+    r = {}
+    i, j = 0, n - 1
+    if rng.random() < 0.35 and n >= 4:
+        i = rng.randrange(0, n - 2)
+        j = rng.randrange(i + 2, n)
+        eps = rng.choice([0.0, 0.0, 1e-3]) * (t[1] - t[0])
+        r["twin"] = [t[i] - eps, t[j] + eps]
+    m = j - i + 1                                            # samples that go into the stages (estimate: generator only)
+    span = t[j] - t[i]
+    dt = span / (m - 1)
+    k = rng.random()
+    if k < 0.25:
+        m = max(2, rng.choice([2, 3, 4, 7, 10, m - 1, m, 2 * (m - 1), 3 * m]))
+        r["resample"] = span / (m - 1) * rng.choice([1.0, 1.0, 1.02, 0.97])
+        dt = span / (m - 1)
+    elif k < 0.4 and "twin" not in r:
+        m = rng.choice([3, 4, 5, 10, 33, 64, n])
+        if rng.random() < 0.6:
+            r["resample"] = [t[0] + span * q / (m - 1) for q in range(m - 1)] + [t[-1]]
+            dt = span / (m - 1)
+        else:
+            r["resample"] = sorted(t[0] + span * rng.random() for _ in range(m))
+            dt = None                                        # not equidistant: no filter on it
+    elif not uniform:
+        avg = (t[-1] - t[0]) / (n - 1)
+        m_f = int(round(span / avg)) + 1                     # the grid a filter would work on
+    if rng.random() < 0.45:
+        r["taperfrac"] = rng.choice([0.001, 0.01, 0.1, 0.25, 0.5, 0.9, 0.0, 1.0])
+    if rng.random() < 0.4 and dt is not None and m >= 2:
+        if not uniform and "resample" not in r:
+            m = m_f
+            dt = span / max(m - 1, 1)
+        nyq = 0.5 / dt
+        f1, f2 = sorted(rng.sample([0.05, 0.1, 0.3, 0.6, 0.9], 2))
+        kind = rng.choice(["lp", "hp", "bp", "bs", "tp"])
+        r["filterargs"] = {"lp": ["lp", f1 * nyq], "hp": ["hp", f1 * nyq], "bp": ["bp", f1 * nyq, f2 * nyq], "bs": ["bs", f1 * nyq, f2 * nyq],
+                           "tp": ["tp", rng.choice([[0.0, 1.0], [0.1, 1.0], [0.0, 0.5], [-1.0, 2.0]])]}[kind]   # pass band of amplitudes
+    if rng.random() < 0.6:
+        pool = [2, 3, 4, 5, 6, 7, 8, 9, 10, 11, 12, 16, 21, 24, 31, 50, m // 2, m - 2, m - 1, m - 1]
+        pool = [w for w in pool if 2 <= w < m] or [2]
+        r["window_len"] = rng.choice(pool + [0, 1] + ([m, m] if rng.random() < 0.5 else []))
+        if rng.random() < 0.6:
+            r["window"] = rng.choice(REAL_WINDOWS)
+    if rng.random() < 0.4:
+        r["via"] = rng.choice(REAL_VIAS)
+    stages = real_stages(r)
+    if stages:
+        r["split"] = rng.choice(stages)
+    return r
+
+
+def real_stages(r):
+    return [s for s, k in zip(REAL_STAGES, ("taperfrac", "filterargs", "window_len")) if r.get(k) is not None]
+
+
+def real_kw(r, keys=("twin", "resample", "taperfrac", "filterargs", "window_len", "window")):
+    kw = {}
+    for k in keys:
+        if r.get(k) is None:
+            continue
+        v = r[k]
+        if k == "twin":
+            v = (float(v[0]), float(v[1]))
+        elif k == "resample":
+            v = np.array(v, dtype=float) if isinstance(v, list) else float(v)
+        elif k == "filterargs":
+            v = tuple(v)
+        elif k == "window" and "window_len" not in keys:
+            continue
+        kw[k] = v
+    return kw
+
+
+def real_via(ts, via, kw):
+    if via == "modify":
+        obj = ts.copy()
+        obj.modify(**kw)
+        return obj.t, obj.x
+    return via_entry(ts, via, kw)
+
+
+def lengths(got):
+    """(samples in time, samples in data) of a result, or None if it is not a pair of one-dimensional arrays"""
+    try:
+        gt, gx = np.asarray(got[0], dtype=float), np.asarray(got[1], dtype=float)
+    except Exception:
+        return None
+    if gt.ndim != 1 or gx.ndim != 1:
+        return None
+    return len(gt), len(gx)
+
+
+def real_clauses(inp):
+    """The clauses that can be evaluated with the stage functions as they are (inp = t, x, requests; all requests go to one object):
+    every stage combination returns time and data of equal length; taper / filter / smoothing change the data only; asking for the
+    stages together is asking for them one after the other, in the order window + resampling, taper, filter, smoothing (the later
+    stages are asked from a second series that holds the result of the earlier ones); the same request through the other entry
+    points; nothing of it changes the stored arrays.  A request may be refused (ValueError) only where a stage cannot work: a
+    smoothing window that is not shorter than the data, a Butterworth filter on fewer than 40 samples.
+    Returns [(oracle, expected, observed, index of the request)]."""
+    from qats import TimeSeries
+    t, x = np.array(inp["t"], dtype=float), np.array(inp["x"], dtype=float)
+    scale = max(1.0, float(np.max(np.abs(x)))) if len(x) else 1.0
+    ts = TimeSeries("s", t.copy(), x.copy())
+    bad = []
+    for idx, r in enumerate(inp["requests"]):
+        kw = real_kw(r)
+        via = r.get("via", "get")
+        label = "" if via == "get" else " — through %s" % via
+        base = attempt(lambda: ts.get(**real_kw(r, ("twin", "resample"))))
+        if isinstance(base, str) or lengths(base) is None or lengths(base)[0] != lengths(base)[1]:
+            continue                                         # window + resampling alone: the other streams' subject
+        m = len(base[0])
+        if m < 2:
+            continue
+        wl = r.get("window_len")
+        fa = r.get("filterargs")
+        # the data the smoothing stage gets (a non-uniform series is put on another grid before it is filtered)
+        ps = base if fa is None else attempt(lambda: ts.get(**real_kw(r, ("twin", "resample", "taperfrac", "filterargs"))))
+        ms = m if isinstance(ps, str) or lengths(ps) is None else lengths(ps)[1]
+        tiny = isinstance(wl, int) and wl >= 3 and wl >= min(m, ms)    # the window is not shorter than the data
+        short = fa is not None and fa[0] != "tp" and m < MIN_FILTER_LEN
+        got = attempt(lambda: real_via(ts, via, kw))
+        if isinstance(got, str):
+            if not ((tiny or short) and got == "ValueError"):
+                bad.append((EQUAL_LEN + ": a result is returned" + label, "time and data, %d samples" % m, got, idx))
+            continue
+        ln = lengths(got)
+        if ln is None or ln[0] != ln[1]:
+            bad.append((EQUAL_LEN + label, "as many data samples as time samples", "unreadable" if ln is None else list(ln), idx))
+            continue
+        gt, gx = np.asarray(got[0], dtype=float), np.asarray(got[1], dtype=float)
+        # the stored series is uniformly sampled (a non-uniform one is put on an equidistant grid before it is filtered)
+        equidistant = len(t) >= 2 and bool(np.allclose(np.diff(t), (t[-1] - t[0]) / (len(t) - 1), rtol=1e-6, atol=0.0))
+        own_axis = fa is None or r.get("resample") is not None or equidistant
+        if own_axis and not np.array_equal(gt, np.asarray(base[0], dtype=float)):
+            bad.append(("tapering, filtering and smoothing change the data only: the time array is the one window + resampling give" + label,
+                        np.asarray(base[0]).tolist()[:6], gt.tolist()[:6], idx))
+            continue
+        direct = got if via == "get" else attempt(lambda: ts.get(**kw))
+        if via != "get":
+            if isinstance(direct, str) or lengths(direct) != ln or not np.array_equal(direct[0], gt) or \
+                    not np.allclose(direct[1], gx, rtol=1e-12, atol=1e-12 * scale):
+                bad.append(("the same request through another entry point returns what get() returns" + label, head(direct), head(got), idx))
+                continue
+        # together = one after the other
+        split = r.get("split")
+        stages = real_stages(r)
+        if split in stages and len(gt) >= 2:
+            first = ["twin", "resample"] + [k for s, k in zip(REAL_STAGES, ("taperfrac", "filterargs", "window_len")) if REAL_STAGES.index(s) < REAL_STAGES.index(split)]
+            later = [k for s, k in zip(REAL_STAGES, ("taperfrac", "filterargs", "window_len")) if REAL_STAGES.index(s) >= REAL_STAGES.index(split)] + ["window"]
+            filt_later = fa is not None and "filterargs" in later
+            pre = attempt(lambda: ts.get(**real_kw(r, first)))
+            if not isinstance(pre, str) and lengths(pre) is not None and lengths(pre)[0] == lengths(pre)[1] and len(pre[0]) >= 2:
+                pt = np.asarray(pre[0], dtype=float)
+                grid_ok = bool(np.allclose(np.diff(pt), (pt[-1] - pt[0]) / (len(pt) - 1), rtol=1e-6, atol=0.0))
+                if (not filt_later) or (grid_ok and (equidistant or r.get("resample") is not None)):
+                    def second():
+                        ts2 = TimeSeries("p", np.array(pre[0], dtype=float), np.array(pre[1], dtype=float))
+                        return ts2.get(**real_kw(r, later))
+                    suf = attempt(second)
+                    if isinstance(suf, str):
+                        if not ((tiny or short) and suf == "ValueError"):
+                            bad.append(("window, resampling, tapering, filtering and smoothing are applied in that order: the stages from '%s' on, "
+                                        "asked from a series holding the result of the earlier ones, give the result of the whole request" % split,
+                                        head(direct), suf, idx))
+                    elif lengths(suf) != ln or not np.array_equal(suf[0], direct[0]) or \
+                            not np.allclose(suf[1], direct[1], rtol=1e-9, atol=1e-9 * scale):
+                        bad.append(("window, resampling, tapering, filtering and smoothing are applied in that order: the stages from '%s' on, "
+                                    "asked from a series holding the result of the earlier ones, give the result of the whole request" % split,
+                                    [list(ln), head(direct)], [list(lengths(suf) or ()), head(suf)], idx))
+    got = attempt(lambda: ts.get())
+    if isinstance(got, str) or not (np.array_equal(got[0], t) and np.array_equal(got[1], x)):
+        bad.append(("without options the stored arrays are returned" + AFTER, [t.tolist()[:5], x.tolist()[:5]], head(got), len(inp["requests"]) - 1))
+    return bad
+
+
 def run(chk):
-    chk.extra["rule"] = RULE
+    chk.extra["rule"] = RULE + " " + SMOOTH_RULE
     chk.assumptions += ["dyadic sample times and values; interp1d's slope division is exact or compared to 1e-12",
                         "stage functions replaced by tag functions on both sides for the order/dt correspondence; their numerics are C12's subject"]
     rng = chk.rng
     drv = core.Driver()
+    # the concrete model of the smoothing / tapering stages against signal.smooth / signal.taper / TimeSeries.get
+    c11_smooth.run_smooth(chk, drv)
     corpus = core.load_corpus("C11")
     N = 500 if chk.quick else 8000
     lines, meta = [], []
@@ -1386,7 +1619,7 @@ def run(chk):
     lines, meta = [], []
     todo = []
     for c in corpus:
-        if "opts" in c or "start" in c:
+        if "opts" in c or "start" in c or c.get("real"):
             continue
         todo.append(([Fraction(v) for v in c["t"]], [Fraction(v) for v in c["x"]], {k: c[k] for k in CASE_KEYS if k in c}, "corpus"))
     for _ in range(M):
@@ -1531,7 +1764,35 @@ def run(chk):
                     type(e).__name__ + ": " + str(e)[:120])]
         for oracle, exp, obs in bad:
             chk.fail(oracle, inp, exp, obs)
+    # ---- the stage functions as they are: every stage combination, the stages' own parameter ranges, several requests per object ----------
+    R = 500 if chk.quick else 8000
+    reals = [c for c in corpus if c.get("real")] + [gen_real(rng) for _ in range(R)]
+    for c in reals:
+        chk.count("real-stages")
+        inp = {k: c[k] for k in ("real", "t", "x", "requests")}
+        for r in c["requests"]:
+            st = real_stages(r)
+            chk.dist("real stages: %s" % ("+".join(st) or "none"))
+            if st:
+                chk.nontriv("real %r %r" % (c["t"][:3], r))
+            wl = r.get("window_len")
+            if isinstance(wl, int):
+                chk.dist("smoothing window length: %s" % ("0 / 1 / 2 (nothing to smooth)" if wl < 3 else "even" if wl % 2 == 0 else "odd"))
+                chk.dist("smoothing window function: %s" % r.get("window", "default"))
+            if r.get("filterargs"):
+                chk.dist("real filter: %s" % r["filterargs"][0])
+            if r.get("via"):
+                chk.dist("real request via %s" % r["via"])
+        try:
+            bad = real_clauses(inp)
+        except Exception as e:
+            bad = [("the implementation raised where the harness did not expect it (a crash is a failing clause)", "no exception",
+                    type(e).__name__ + ": " + str(e)[:120], len(c["requests"]) - 1)]
+        for oracle, exp, obs, idx in bad:
+            chk.fail(oracle, dict(inp, requests=c["requests"][:idx + 1]), exp, obs)
     chk.sample(dict(t=[0, 1, 2, 3, 4], x=[0, 1, 4, 9, 16], opts="twin=(1,3) taper filter", model=[[1, 2, 3], [5, 11, 21]]))
+    chk.sample(dict(t="0, 0.5, ... 20 (41 samples)", requests=[dict(twin=[2.0, 18.0], taperfrac=0.1, window_len=6, window="hanning")],
+                    expected="33 time samples and 33 data samples; the same data as smoothing the tapered window asked from a second series"))
     chk.sample(dict(t=[0, 1, 2, 3, 4], x=[0, 1, 4, 9, 16], req=[1, 5, 2], expected="raises (5 is outside the stored span)"))
     chk.sample(dict(t=[0, 1, 2, 3, 4], x=[0, 1, 4, 9, 16], history=[{"taperfrac": 0.1}], then="get()", expected=[[0, 1, 2, 3, 4], [0, 1, 4, 9, 16]]))
     chk.sample(dict(t=[0, 1, 2, 3, 4], x=[0, 1, 4, 9, 16], history=[{"op": "minima"}], then="get(twin=(1, 3))", expected=[[1, 2, 3], [1, 4, 9]]))
@@ -1544,10 +1805,16 @@ def run(chk):
 
 def replay(rp):
     inp = rp["input"]
+    if isinstance(inp, dict) and str(inp.get("kind", "")).startswith("sm-"):
+        return c11_smooth.replay_smooth(rp)
     bad = 0
     if "start" in inp:
         for oracle, exp, obs in float_case(inp):
             print("FAILS:", oracle, "| expected", exp, "| observed", obs)
+            bad += 1
+    elif inp.get("real"):
+        for oracle, exp, obs, idx in real_clauses(inp):
+            print("FAILS (request %d: %r):" % (idx, inp["requests"][idx]), oracle, "| expected", exp, "| observed", obs)
             bad += 1
     elif "opts" in inp and "history" not in inp and not any(k in inp for k in ("series", "xpow", "dtg_ref")):
         # tagged pipeline run (stage functions replaced by the tag functions, as in the check)
